@@ -455,7 +455,18 @@ def c09(prop, tier):
                                           "TLC evaluates QuoteMeta / NCaps / Names correctly"])
 
 
+def c19(prop, tier):
+    return run_search_family(prop, tier, prop, subcmd="fastpaths", with_at=True, budget_scale=0.6 if tier == "quick" else 0.7,
+                             families=["REV", "ANC", "CC", "DIG", "LIT", "G2a", "G2m", "U8", "G2u"],
+                             rule="TLC enumerates the families designed around the strategy selector (REV, ANC, CC, DIG, LIT) and generic shards, "
+                                  "x haystacks x every start offset; patterns whose selected strategy is a special-purpose searcher are checked end to end "
+                                  "through Engine.IsMatch/FindIndicesAt/FindAt/FindSubmatchAt, and every public searcher whose own applicability predicate "
+                                  "accepts the pattern is constructed as meta/compile.go does and driven directly; non-trivial = reference has a match on a "
+                                  "non-empty haystack; per-strategy pattern counts are in patterns_by_strategy")
+
+
 REGISTRY = {
+    "C19": c19,
     "C09": c09,
     "C13": c13,
     "C12": c12,
